@@ -115,6 +115,16 @@ def install():
 _T = {}
 
 
+_K = {}
+
+
+def _subclass(base):
+    c = _K.get('cls')
+    if c is None:
+        c = _K['cls'] = type('CallerNamespace', (base,), {})
+    return c
+
+
 def run(src_name, mode, at, kind):
     """one call of the template as a sub-template on a prepared namespace; returns the trace record"""
     from DocumentTemplate._DocumentTemplate import TemplateDict
@@ -150,7 +160,9 @@ def run(src_name, mode, at, kind):
         kw['tree-e'] = encode_seq(['n1', 'n3', 'n7'])          # the expand link of a childless node (leaves=)
     elif mode:
         kw.update(mode)
-    md = TemplateDict()
+    # (callers' namespaces are often instances of a subclass -- the restricted namespace of an application server)
+    _K['n'] = _K.get('n', 0) + 1
+    md = (_subclass(TemplateDict) if _K['n'] % 2 else TemplateDict)()
     md.guarded_getattr = md.guarded_getitem = None      # what String.__call__ sets on a namespace it creates
     md._push({'probe': 'bottom'})
     md._push(dict(base, **kw))
